@@ -167,7 +167,8 @@ def obligations(tier, rng):
         for N in Ns:
             out.append(ob('C02', 'online', 'F1/%s/N=%d' % (text(f), N), f=f, N=N, ext=_ext_ok(f),
                           kind='combined' if N % 2 else 'online'))
-    f2 = refsem.depth2(PAST_OPS, PAST_OPS, [(0, 1), (1, 2)] if quick else [(0, 1), (1, 2), (2, 3)])
+    nodiv = [k for k in PAST_OPS if k != 'div']      # division of two symbolic terms is kept at depth 1 (z3 NRA answers unknown on nestings)
+    f2 = refsem.depth2(nodiv, nodiv, [(0, 1), (1, 2)] if quick else [(0, 1), (1, 2), (2, 3)])
     if quick:
         f2 = rng.sample(f2, len(f2) * 8 // 100)
     for f in f2:
@@ -177,7 +178,7 @@ def obligations(tier, rng):
         for N in ([4] if quick else [3, 6]):
             out.append(ob('C02', 'online', 'Fdup/%s/N=%d' % (text(f), N), f=f, N=N, ext=_ext_ok(f)))
     for i in range(40 if quick else 500):
-        f = refsem.gen_formula(rng, rng.choice([3, 4]), PAST_OPS, [(0, 1), (1, 2), (0, 2)], ('x', 'y'))
+        f = refsem.gen_formula(rng, rng.choice([3, 4]), nodiv, [(0, 1), (1, 2), (0, 2)], ('x', 'y'))
         N = rng.choice([3, 5, 6])
         out.append(ob('C02', 'online', 'F3/%d/%s/N=%d' % (i, text(f), N), f=f, N=N, ext=False))
     if not quick:
